@@ -22,11 +22,20 @@ for g in likely; do
   "$BIN" trace --gen $g --seed 1 --from 0 --to "$LR" --threads 7 > "$OUT/b.$g" &
 done
 wait
+# crash-restart histories (sessions) of both generators
+SR=${DET_SESSIONS:-300}
+for g in layout likely; do
+  n=$SR; [ $g = likely ] && n=$((SR / 10 + 8))
+  "$BIN" trace --sessions 1 --gen $g --seed 1 --from 0 --to "$n" --threads 1 > "$OUT/a.sess-$g" &
+  "$BIN" trace --sessions 1 --gen $g --seed 1 --from 0 --to "$n" --threads 16 > "$OUT/b.sess-$g" &
+done
+wait
 bad=0; lines=0
-for s in $(seq 1 "$SEEDS") likely; do
+for s in $(seq 1 "$SEEDS") likely sess-layout sess-likely; do
   if ! cmp -s "$OUT/a.$s" "$OUT/b.$s"; then bad=$((bad+1)); echo "MISMATCH seed $s"; diff "$OUT/a.$s" "$OUT/b.$s" | head -4; fi
   lines=$((lines + $(wc -l < "$OUT/a.$s")))
 done
 distinct=$(cat "$OUT"/a.* | awk '{print $5}' | sort -u | wc -l)
+echo "sessions: $(cat "$OUT"/a.sess-* | wc -l) histories executed twice, $(cat "$OUT"/a.sess-* | awk '{print $5}' | sort -u | wc -l) distinct"
 echo "determinism: $lines runs executed twice in separate processes (1 vs 16 workers, 24 processes at a time), $distinct distinct event logs, $bad mismatching seeds"
 [ $bad -eq 0 ]
